@@ -213,7 +213,7 @@ type profile struct {
 
 var allActs = []string{"equivocate", "badparent", "staleqc", "inflate", "dupsigner", "relabel", "subquorum",
 	"wrongblock", "genesisview", "futuretimeout", "badtimeoutsig", "dupvote", "multivote", "zerovote", "unknownvote",
-	"strayvote", "replay", "liefetch", "silent", "staleTC", "swapids", "nosig", "sameview", "aggreplay", "forgevote", "forgetc", "forgecontrib", "aggtwin", "aggattest", "aggforge", "roguekey", "payloadeq", "qceq", "aggswap"}
+	"strayvote", "replay", "liefetch", "silent", "staleTC", "swapids", "nosig", "sameview", "aggreplay", "forgevote", "forgetc", "forgecontrib", "aggtwin", "aggattest", "aggforge", "roguekey", "payloadeq", "qceq", "aggswap", "aggstale"}
 
 func profileFor(prop string) profile {
 	pr := profile{byz: 0.6, acts: allActs, faults: 6, leaders: []string{"round-robin", "round-robin", "round-robin", "fixed", "carousel", "reputation", "scripted"}}
@@ -308,6 +308,9 @@ func GenPlan(prop string, seed uint64) *Plan {
 			p.Knobs = map[string]int{}
 		}
 		p.Knobs["aggqc"] = 1
+	}
+	if prop == "C04" && p.Ruleset == "fasthotstuff" {
+		pr.acts = append(append([]string{}, pr.acts...), "aggstale", "aggstale", "aggstale", "aggstale", "aggstale", "aggstale", "aggstale", "aggstale")
 	}
 	if prop == "C03" && p.Ruleset == "fasthotstuff" {
 		// proposals carry aggregates only here; every view ends by timeout on this tree (K1), so they always do
